@@ -1,0 +1,41 @@
+//go:build verif
+
+// Contracts for govc (contract-based deductive verification); comment-only, compiled only with -tags verif.
+package chaingersender
+
+// ---- the oracle's L2 side (C15): "is this root already on L2" is answered from the L2 GER manager's map for exactly the
+// root asked about (non-zero entry = present; a failed call is an error, never "absent"), and an injection submits the
+// manager's insertGlobalExitRoot for exactly the root given, to the manager's address, with no value.
+// l2MapValue(g): the manager's map entry for g (rigid, A8); the ABI packing is reflection-driven and assumed (A4).
+//@ spec fn l2MapValue(g Hash) int
+//@ interface github.com/agglayer/aggkit/aggoracle/types.L2GERManagerContract.GlobalExitRootMap (self, opts, ger)
+//@   modifies nothing
+//@   ensures result1 != nil ==> result0 == nil
+//@   ensures result1 == nil ==> result0 != nil && bigval(result0) == l2MapValue(hashOf(ger)) && 0 <= bigval(result0)
+// assumed (A4): common.Big0 is the number zero
+//@ extern (*math/big.Int).Cmp@chaingersender.(*EVMChainGERSender).IsGERInjected (x, y)
+//@   requires x != nil
+//@   modifies nothing
+//@   ensures result == ite(bigval(x) < 0, 0 - 1, ite(bigval(x) > 0, 1, 0))
+//@ func (c *EVMChainGERSender) IsGERInjected
+//@   props C15
+//@   requires c != nil && c.l2GERManager != nil
+//@   modifies nothing
+//@   ensures[present-means-a-non-zero-entry-for-that-root] result1 == nil ==> result0 == (l2MapValue(ger) != 0)
+//@   ensures[a-failed-call-is-an-error] result1 != nil ==> !result0
+
+//@ ghost var packedGER Hash
+//@ ghost var packedInput []byte
+//@ extern (github.com/ethereum/go-ethereum/accounts/abi.ABI).Pack@chaingersender.(*EVMChainGERSender).InjectGER (a, name, args)
+//@   modifies nothing
+//@ interface github.com/agglayer/aggkit/aggoracle/types.EthTxManager.Add (self, ctx, to, value, data, gasOffset, sidecar)
+//@   modifies nothing
+//@ interface github.com/agglayer/aggkit/aggoracle/types.EthTxManager.Result (self, ctx, id)
+//@   modifies nothing
+//@ func (c *EVMChainGERSender) InjectGER
+//@   props C15
+//@   requires c != nil && c.l2GERManagerAbi != nil && c.ethTxMan != nil && c.logger != nil
+//@   modifies heap
+//@   assert call:Pack arg1 == "insertGlobalExitRoot" && len(arg2) == 1 && typeIs(arg2[0], common.Hash) && unbox(arg2[0], common.Hash) == ger
+//@   assert call:Add arg1 != nil && *arg1 == c.l2GERManagerAddr && arg3 == updateGERTxInput
+//@   loop 0 invariant c != nil && c.ethTxMan != nil && c.logger != nil && ticker != nil
